@@ -1121,7 +1121,8 @@ func (v *VMValue) AttrGet(ctx *Context, name string) *VMValue {
 			p1 := v
 			p1x := a
 
-			for {
+			// 原型链可能成环(x.__proto__ = x)，限制查找的层数
+			for depth := 0; depth < 64; depth++ {
 				if p1, ok = p1x.Load("__proto__"); ok && p1.TypeId == VMTypeDict {
 					var exists bool
 					p1x = (*VMDictValue)(p1)
